@@ -9,7 +9,7 @@ from __future__ import annotations
 import numpy as np
 
 VIAS = ["ctor", "ctor", "ctor", "swap_warm", "swap_fresh", "swap2", "from_labels", "queried_before", "queried_before",
-        "sample_replacement", "sample_smoothing", "sample_single_pass", "sample_swap", "replaced"]
+        "sample_replacement", "sample_smoothing", "sample_single_pass", "sample_swap", "replaced", "relabelled", "relabelled"]
 FLIP = {"pos": "neg", "neg": "pos"}
 _THR = ["tpr", "fnr", "tnr", "fpr", "topr", "tonr"]
 
@@ -66,6 +66,16 @@ def build(pos, neg, ep, en, sc, ec, via, seed=0):
         method = "single_pass" if via == "sample_single_pass" else "replacement"
         b = src.bootstrap_sample(BootstrapConfig(sampling_method=method, smoothing=smoothing, stratified_sampling="by_label" if seed % 2 else None))
         return b.swap() if via == "sample_swap" else b
+    if via == "relabelled":
+        # built under another configuration, queried, then its public label fields re-assigned with the plain strings the
+        # constructor accepts: it must now behave exactly like a fresh object of the new configuration
+        rs = np.random.default_rng(seed)
+        o_sc, o_ec = [("pos", "pos"), ("pos", "neg"), ("neg", "pos"), ("neg", "neg")][int(rs.integers(0, 4))]
+        obj = Scores(pos, neg, nb_easy_pos=ep, nb_easy_neg=en, score_class=o_sc, equal_class=o_ec)
+        if rs.random() < 0.5:
+            _warm(obj, seed)
+        obj.score_class, obj.equal_class = str(sc), str(ec)
+        return obj
     if via == "replaced":
         # the object held other scores (other class sizes), answered every kind of query about them, and then had its score arrays
         # replaced through the public attributes (what the FraudScores setters do); sorted, as the class keeps them
